@@ -111,6 +111,9 @@ func genUserPath(r *kit.Rand) string {
 
 // malformed realm strings: separators, look-alikes, prefixes of other realms
 func mutatePath(r *kit.Rand, p string) string {
+	if len(p) == 0 {
+		return ":"
+	}
 	ins := []string{":", ":", "::", "/", "//", ".", "_", "-", "__", "A", " ", "\x00", "\xff", "_test", "p:", ":p", "vm:"}
 	switch r.Intn(6) {
 	case 0:
@@ -222,6 +225,12 @@ func gen(w *kit.Out, r *kit.Rand, tier string) {
 	nonce := 0
 	runRealm := "gno.land/e/" + callerAddr.String() + "/run"
 
+	// ---- 0. code-shape facts the theorems rely on (read from /repo's source)
+	w.Case("facts")
+	for _, f := range []string{"param-writers", "exec-params", "params-handler", "gate-order"} {
+		w.Op("fact %s", f)
+	}
+
 	// ---- A. boundary tables: grammar and key algebra (native route)
 	w.Case("realm-table")
 	for _, p := range realmTable {
@@ -238,6 +247,15 @@ func gen(w *kit.Out, r *kit.Rand, tier string) {
 	for _, rl := range []string{"gno.land/r/a", "gno.land/r/a:b", "gno.land/r/a/b", "gno.land/r/a:", "p", "", "gno.land/r/a:a", "vm"} {
 		for _, k := range keys {
 			w.Op("pkey %s %s", hx(rl), hx(k))
+		}
+	}
+	if thorough {
+		// one more symbol of key length for the realm / ':'-extension pair
+		w.Case("pkey-exhaustive-5")
+		for _, rl := range []string{"gno.land/r/a", "gno.land/r/a:b", "gno.land/r/a/b"} {
+			for _, k := range allStrings(keyAlpha, 5) {
+				w.Op("pkey %s %s", hx(rl), hx(k))
+			}
 		}
 	}
 	w.Case("pkey-table")
@@ -345,7 +363,7 @@ func gen(w *kit.Out, r *kit.Rand, tier string) {
 	// ---- C. VM route: generated realm programs through the real VMKeeper
 	nRealms := 5
 	if thorough {
-		nRealms = 16
+		nRealms = 32
 	}
 	pool := []string{"gno.land/r/alice/one", "gno.land/r/alice/one/two", "gno.land/r/alice/on", "gno.land/r/a0_b/c1_d"}
 	for len(pool) < nRealms {
@@ -428,7 +446,7 @@ func gen(w *kit.Out, r *kit.Rand, tier string) {
 	// ---- D. structured random (mostly valid)
 	nCases, nativeCases := 40, 30
 	if thorough {
-		nCases, nativeCases = 400, 300
+		nCases, nativeCases = 1500, 1200
 	}
 	for c := 0; c < nCases; c++ {
 		w.Case(fmt.Sprintf("vm-rand-%d", c))
